@@ -260,6 +260,24 @@ fn main() {
                 }
             }
         }
+        Some("sample") => {
+            // engine sample --prop C05 --seed 1 --n 64 --max-ops 24 --out cases.json   (registries r6 and r1)
+            let prop = arg(&args, "--prop").expect("--prop");
+            let seed: u64 = arg(&args, "--seed").and_then(|s| s.parse().ok()).unwrap_or(0);
+            let n: usize = arg(&args, "--n").and_then(|s| s.parse().ok()).unwrap_or(64);
+            let max_ops: usize = arg(&args, "--max-ops").and_then(|s| s.parse().ok()).unwrap_or(24);
+            let out = arg(&args, "--out").expect("--out");
+            let mut cases: Vec<(String, Vec<vcore::ops::Op>)> = Vec::new();
+            let n1 = (n / 8).max(1);
+            for ops in vcore::runner::sample_cases::<reg_r6::gen::Rg>(&prop, false, seed, n - n1, max_ops) {
+                cases.push(("r6".into(), ops));
+            }
+            for ops in vcore::runner::sample_cases::<reg_r1::gen::Rg>("C13", false, seed, n1, max_ops) {
+                cases.push(("r1".into(), ops));
+            }
+            std::fs::write(&out, serde_json::to_string(&cases).unwrap()).expect("write cases");
+            println!("sampled {} cases", cases.len());
+        }
         Some("replay") => {
             let path = args.get(2).expect("file");
             let case: ReplayCase = serde_json::from_str(&std::fs::read_to_string(path).expect("read")).expect("parse replay file");
